@@ -738,6 +738,128 @@ Proof.
     destruct (one_internal L); discriminate.
 Qed.
 
+(* ------------------------------------------------------------------ adjacently / internally tagged branches *)
+Definition tbranch (props : list (ustring * schema)) (req : list ustring) (closed : bool) : schema :=
+  SObj (Some [TObject]) None None None numv_none strv_none ItemsAbsent [] None None None false props req
+       (if closed then Some (SBool false) else None) None None None None None None None None None.
+
+Lemma ueqb_sym a b : ustr_eqb a b = ustr_eqb b a.
+Proof.
+  destruct (ustr_eqb a b) eqn:E1, (ustr_eqb b a) eqn:E2; try reflexivity.
+  - apply ustr_eqb_eq in E1. subst. rewrite ustr_eqb_refl in E2. discriminate.
+  - apply ustr_eqb_eq in E2. subst. rewrite ustr_eqb_refl in E1. discriminate.
+Qed.
+
+Lemma tobj_inv b props req closed : tobj b = Some (props, req, closed) -> b = tbranch props req closed /\ props <> [].
+Proof.
+  unfold tobj. intro H. destruct_matches H.
+  all: match type of H with (if ?c then _ else _) = _ => destruct c eqn:E; [|discriminate H] end; try discriminate H.
+  all: injection H as <- <- <-.
+  all: apply andb_true_iff in E; destruct E as [E E3]; apply andb_true_iff in E; destruct E as [E1 E2];
+    apply numv_is_none_true in E1; apply strv_is_none_true in E2; subst.
+  all: split; [reflexivity|]; intro Hn; subst; discriminate E3.
+Qed.
+
+Lemma tag_plain_inv ts : tag_plain ts = true -> exists x, ts = xsimple_sch [JStr x].
+Proof.
+  unfold tag_plain. intro H. destruct_matches H.
+  apply andb_true_iff in H. destruct H as [E1 E2]. apply numv_is_none_true in E1. apply strv_is_none_true in E2.
+  subst. eexists. reflexivity.
+Qed.
+
+Lemma cstr_plain x : cstr (xsimple_sch [JStr x]) = Some x.
+Proof. reflexivity. Qed.
+
+Lemma keys_sorted_b_eq l : keys_sorted_b l = keys_sorted l.
+Proof. reflexivity. Qed.
+
+(* the branches of an adjacently tagged oneOf of the fragment *)
+Definition adj_cond (t c : ustring) (b : schema) : bool :=
+  match tobj b with
+  | Some (props, req, closed) =>
+      closed && forallb (fun kv => mem_ustr (fst kv) req) props
+      && forallb (fun r => has_key r props) req
+      && match assoc t props with Some ts => tag_plain ts | None => false end
+      && forallb (fun kv => ustr_eqb (fst kv) t || ustr_eqb (fst kv) c) props
+      && keys_sorted_b (map fst props) && (length props <=? 2)%nat
+  | None => false
+  end.
+
+Lemma adj_branch_cases t c b : ustr_eqb t c = false -> adj_cond t c b = true ->
+  exists req x, mem_ustr t req = true /\
+    (b = tbranch [(t, xsimple_sch [JStr x])] req true \/
+     (mem_ustr c req = true /\ exists sc, b = tbranch [(t, xsimple_sch [JStr x]); (c, sc)] req true) \/
+     (mem_ustr c req = true /\ exists sc, b = tbranch [(c, sc); (t, xsimple_sch [JStr x])] req true)).
+Proof.
+  intros Htc H. unfold adj_cond in H. destruct (tobj b) as [[[props req] closed]|] eqn:Ht; [|discriminate].
+  destruct (tobj_inv b props req closed Ht) as [-> Hne].
+  repeat (apply andb_true_iff in H; destruct H as [H ?]).
+  destruct closed; [|discriminate H]. clear H.
+  match goal with X : forallb (fun kv => mem_ustr (fst kv) req) props = true |- _ => rename X into Hreq end.
+  match goal with X : match assoc t props with _ => _ end = true |- _ => rename X into Htag end.
+  match goal with X : forallb (fun kv => ustr_eqb (fst kv) t || ustr_eqb (fst kv) c) props = true |- _ => rename X into Hkeys end.
+  match goal with X : keys_sorted_b (map fst props) = true |- _ => rename X into Hsort end.
+  match goal with X : (length props <=? 2)%nat = true |- _ => rename X into Hlen end.
+  destruct (assoc t props) as [ts|] eqn:Ha; [|discriminate]. destruct (tag_plain_inv ts Htag) as (x & ->).
+  exists req, x.
+  destruct props as [|[k1 s1] [|[k2 s2] [|]]]; [contradiction| | |discriminate Hlen].
+  - cbn [assoc] in Ha. destruct (ustr_eqb t k1) eqn:E; [|discriminate]. apply ustr_eqb_eq in E. subst k1.
+    injection Ha as ->. cbn [forallb fst] in Hreq. rewrite andb_true_r in Hreq. split; [exact Hreq|]. left. reflexivity.
+  - cbn [forallb fst] in Hreq, Hkeys. rewrite andb_true_r in Hreq, Hkeys.
+    apply andb_true_iff in Hreq. destruct Hreq as [Hr1 Hr2]. apply andb_true_iff in Hkeys. destruct Hkeys as [Hk1 Hk2].
+    rewrite keys_sorted_b_eq in Hsort. cbn [map fst keys_sorted] in Hsort. rewrite andb_true_r in Hsort.
+    assert (Hne12 : ustr_eqb k1 k2 = false).
+    { destruct (ustr_eqb k1 k2) eqn:E; [|reflexivity]. apply ustr_eqb_eq in E. subst. rewrite ultb_irrefl in Hsort. discriminate. }
+    cbn [assoc] in Ha. destruct (ustr_eqb t k1) eqn:E1.
+    + apply ustr_eqb_eq in E1. subst k1. injection Ha as ->. split; [exact Hr1|]. right. left.
+      apply orb_true_iff in Hk2. destruct Hk2 as [Hk2|Hk2].
+      * apply ustr_eqb_eq in Hk2. subst k2. rewrite ustr_eqb_refl in Hne12. discriminate.
+      * apply ustr_eqb_eq in Hk2. subst k2. split; [exact Hr2|]. exists s2. reflexivity.
+    + destruct (ustr_eqb t k2) eqn:E2; [|discriminate]. apply ustr_eqb_eq in E2. subst k2. injection Ha as ->.
+      split; [exact Hr2|]. right. right.
+      apply orb_true_iff in Hk1. destruct Hk1 as [Hk1|Hk1].
+      * rewrite ueqb_sym in Hk1. congruence.
+      * apply ustr_eqb_eq in Hk1. subst k1. split; [exact Hr1|]. exists s1. reflexivity.
+Qed.
+
+(* ... and of an internally tagged one *)
+Definition int_cond (cls : Heck.CharClasses) (t : ustring) (b : schema) : bool :=
+  match tobj b with
+  | Some (props, req, closed) =>
+      let rest := filter (fun kv => negb (ustr_eqb (fst kv) t)) props in
+      match assoc t props with Some ts => tag_plain ts | None => false end
+      && mem_ustr t req
+      && forallb (fun r => has_key r props) req
+      && keys_sorted_b (map fst props)
+      && Sanitize.unique (map (fun kv => fst (Sanitize.recase cls (fst kv) Sanitize.Snake)) rest)
+      && forallb (fun kv => mem_ustr (fst kv) req || negb (is_one (snd kv))) rest
+  | None => false
+  end.
+
+Lemma int_branch_cases cls t b : int_cond cls t b = true ->
+  exists props req closed x,
+    b = tbranch props req closed /\ assoc t props = Some (xsimple_sch [JStr x]) /\ mem_ustr t req = true /\
+    forallb (fun r => has_key r props) req = true /\ keys_sorted (map fst props) = true /\
+    Sanitize.unique (field_idents cls (filter (fun kv => negb (ustr_eqb (fst kv) t)) props)) = true /\
+    forallb (fun kv => mem_ustr (fst kv) req || negb (is_one (snd kv)))
+            (filter (fun kv => negb (ustr_eqb (fst kv) t)) props) = true.
+Proof.
+  unfold int_cond. destruct (tobj b) as [[[props req] closed]|] eqn:Ht; [|discriminate].
+  destruct (tobj_inv b props req closed Ht) as [-> _]. intro H.
+  repeat (apply andb_true_iff in H; destruct H as [H ?]).
+  destruct (assoc t props) as [ts|] eqn:Ha; [|discriminate]. destruct (tag_plain_inv ts H) as (x & ->).
+  exists props, req, closed, x. rewrite keys_sorted_b_eq in *. repeat split; assumption.
+Qed.
+
+Lemma conv_props_skip_filter cls cv t base req : forall props s,
+  conv_props_skip cls cv t (Some base) req props s =
+  conv_props cls cv base req (filter (fun kv => negb (ustr_eqb (fst kv) t)) props) s.
+Proof.
+  induction props as [|[k s'] props IH]; intro s; cbn [conv_props_skip filter fst]; [reflexivity|].
+  destruct (ustr_eqb k t); cbn [negb]; [apply IH|]. cbn [conv_props].
+  destruct (conv_prop cls cv base req k s' s) as [[p s1]|]; [|reflexivity]. rewrite IH. reflexivity.
+Qed.
+
 (* structural induction that also reaches the lone property of every branch of a oneOf *)
 Definition PropP (P : schema -> Prop) (b : schema) : Prop := forall v sc, In (v, sc) (sch_props b) -> P sc.
 
@@ -1313,13 +1435,194 @@ Section Main.
       + exfalso. exact (conv_xvar_total nm v sc s0 (Forall_inv HT v sc (xtyped_sch v sc)) Hf1 Hnm Hv).
   Qed.
 
+  Lemma PropP_PayP (P : schema -> Prop) b : PropP P b -> PayP P b.
+  Proof. intros H v sc Hx. apply xtyped_inv in Hx. subst b. apply (H v sc). left. reflexivity. Qed.
+
+  (* ---- adjacently tagged *)
+  Lemma conv_avariant_cases nm t c b s0 : ustr_eqb t c = false -> adj_cond t c b = true ->
+    exists x, assoc t (sch_props b) = Some (xsimple_sch [JStr x]) /\
+      ((conv_avariant cvf nm t c b s0 = Some (x, VSimple, false, s0) /\ sch_props b = [(t, xsimple_sch [JStr x])]) \/
+       (exists sc, In (c, sc) (sch_props b) /\ assoc c (sch_props b) = Some sc /\
+          branch_fold cls (TagAdjacent t c) (NRequired []) (fun s' _ => frag cls keys s') andb true b = frag cls keys sc /\
+          (forall nm', branch_fold cls (TagAdjacent t c) nm' (names_of cls) (@app ustring) [] b = names_of cls sc (adj_name nm' c x)) /\
+          conv_avariant cvf nm t c b s0 =
+          match conv_xvar cvf nm (match nm with NRequired _ => c | _ => x end) sc s0 with
+          | Some (vd, deny, s1) => Some (x, vd, deny, s1)
+          | None => None
+          end)).
+  Proof.
+    intros Htc Hc. destruct (adj_branch_cases t c b Htc Hc) as (req & x & Hreq & [->|[(Hcr & sc & ->)|(Hcr & sc & ->)]]);
+      exists x.
+    - cbn [sch_props tbranch assoc]. rewrite ustr_eqb_refl. split; [reflexivity|]. left. split; reflexivity.
+    - cbn [sch_props tbranch assoc]. rewrite ustr_eqb_refl. split; [reflexivity|]. right. exists sc.
+      split; [right; left; reflexivity|]. rewrite (ueqb_sym c t), Htc, ustr_eqb_refl.
+      split; [reflexivity|]. cbn [branch_fold tbranch conv_avariant]. rewrite ustr_eqb_refl. cbn [cstr xsimple_sch].
+      split; [reflexivity|]. split; [reflexivity|]. reflexivity.
+    - cbn [sch_props tbranch assoc]. rewrite Htc, !ustr_eqb_refl. split; [reflexivity|]. right. exists sc.
+      split; [left; reflexivity|]. split; [reflexivity|]. cbn [branch_fold tbranch conv_avariant].
+      rewrite (ueqb_sym c t), Htc. cbn [cstr xsimple_sch]. split; [reflexivity|]. split; [reflexivity|]. reflexivity.
+  Qed.
+
+  Lemma one_names_cons' tg nm b r :
+    one_names tg nm (b :: r) = branch_fold cls tg nm (names_of cls) (@app ustring) [] b ++ one_names tg nm r.
+  Proof. reflexivity. Qed.
+
+  Lemma conv_abranches_total nm t c : name_opt nm <> None -> ustr_eqb t c = false -> forall bs,
+    Forall (PropP Tot) bs -> forallb (adj_cond t c) bs = true -> one_frags (TagAdjacent t c) bs = true ->
+    forall s0, conv_abranches cvf nm t c bs s0 <> None.
+  Proof.
+    intros Hnm Htc. induction bs as [|b r IH]; intros HT Hc Hf s0; [discriminate|].
+    cbn [forallb] in Hc. apply andb_true_iff in Hc. destruct Hc as [Hc1 Hc2].
+    rewrite one_frags_cons in Hf. apply andb_true_iff in Hf. destruct Hf as [Hf1 Hf2].
+    cbn [conv_abranches].
+    destruct (conv_avariant_cases nm t c b s0 Htc Hc1) as (x & _ & [[Hv _]|(sc & Hin & _ & Hfold & _ & Hv)]); rewrite Hv.
+    - destruct (conv_abranches cvf nm t c r s0) as [[[vs2 d2] s2]|] eqn:Hr; [discriminate|].
+      exfalso. exact (IH (Forall_inv_tail HT) Hc2 Hf2 s0 Hr).
+    - rewrite Hfold in Hf1.
+      destruct (conv_xvar cvf nm _ sc s0) as [[[vd deny] sa]|] eqn:Hx.
+      + destruct (conv_abranches cvf nm t c r sa) as [[[vs2 d2] s2]|] eqn:Hr; [discriminate|].
+        exfalso. exact (IH (Forall_inv_tail HT) Hc2 Hf2 sa Hr).
+      + exfalso. exact (conv_xvar_total nm _ sc s0 (Forall_inv HT c sc Hin) Hf1 Hnm Hx).
+  Qed.
+
+  Lemma conv_abranches_names nm t c : ustr_eqb t c = false -> forall bs names s rvs d s1,
+    forallb (adj_cond t c) bs = true ->
+    variant_names (TagAdjacent t c) bs = Some names -> conv_abranches cvf nm t c bs s = Some (rvs, d, s1) ->
+    map fst rvs = names.
+  Proof.
+    intros Htc. induction bs as [|b r IH]; intros names s rvs d s1 Hc Hn Hcv.
+    - cbn in Hn, Hcv. injection Hn as <-. injection Hcv as <- _ _. reflexivity.
+    - cbn [forallb] in Hc. apply andb_true_iff in Hc. destruct Hc as [Hc1 Hc2].
+      cbn [variant_names opt_all_map] in Hn. cbn [conv_abranches] in Hcv.
+      destruct (conv_avariant_cases nm t c b s Htc Hc1) as (x & Ha & Hcase). rewrite Ha in Hn. cbn [cstr xsimple_sch] in Hn.
+      change (opt_all_map (fun b0 => match assoc t (sch_props b0) with Some ts => cstr ts | None => None end) r)
+        with (variant_names (TagAdjacent t c) r) in Hn.
+      destruct (variant_names (TagAdjacent t c) r) as [rest|] eqn:Hrest; [|discriminate]. injection Hn as <-.
+      assert (Hgen : forall vd d1 sa, match conv_abranches cvf nm t c r sa with
+                                      | Some (vs2, d2, s2) => Some ((x, vd) :: vs2, d1 || d2, s2)
+                                      | None => None end = Some (rvs, d, s1) -> map fst rvs = x :: rest).
+      { intros vd d1 sa H. destruct (conv_abranches cvf nm t c r sa) as [[[vs2 d2] s2]|] eqn:Hr; [|discriminate].
+        injection H as <- _ _. cbn [map fst]. f_equal. exact (IH rest sa vs2 d2 s2 Hc2 eq_refl Hr). }
+      destruct Hcase as [[Hv _]|(sc & _ & _ & _ & _ & Hv)]; rewrite Hv in Hcv.
+      + exact (Hgen _ _ _ Hcv).
+      + destruct (conv_xvar cvf nm _ sc s) as [[[vd deny] sa]|]; [|discriminate]. exact (Hgen _ _ _ Hcv).
+  Qed.
+
+  (* ---- internally tagged *)
+  Lemma ifold_frag t : forall props,
+    (fix gp (ps : list (ustring * schema)) {struct ps} : bool :=
+       match ps with
+       | [] => true
+       | (k, s') :: q => (if ustr_eqb k t then true else frag cls keys s') && gp q
+       end) props = forallb (fun kv => frag cls keys (snd kv)) (filter (fun kv => negb (ustr_eqb (fst kv) t)) props).
+  Proof.
+    induction props as [|[k s'] q IH]; [reflexivity|]. cbn [filter fst]. rewrite IH.
+    destruct (ustr_eqb k t); cbn [negb forallb snd andb]; reflexivity.
+  Qed.
+
+  Lemma ifold_names t base : forall props,
+    (fix gp (ps : list (ustring * schema)) {struct ps} : list ustring :=
+       match ps with
+       | [] => []
+       | (k, s') :: q => (if ustr_eqb k t then [] else names_of cls s' (prop_type_name cls base k)) ++ gp q
+       end) props = prop_names base (filter (fun kv => negb (ustr_eqb (fst kv) t)) props).
+  Proof.
+    induction props as [|[k s'] q IH]; [reflexivity|]. cbn [filter fst]. rewrite IH. unfold prop_names.
+    destruct (ustr_eqb k t); cbn [negb flat_map fst snd app]; reflexivity.
+  Qed.
+
+  Definition rest_of (t : ustring) (props : list (ustring * schema)) : list (ustring * schema) :=
+    filter (fun kv => negb (ustr_eqb (fst kv) t)) props.
+
+  Lemma conv_ivariant_cases nm base t b s0 : name_opt nm = Some base -> int_cond cls t b = true ->
+    exists props req closed x,
+      b = tbranch props req closed /\ assoc t props = Some (xsimple_sch [JStr x]) /\ mem_ustr t req = true /\
+      forallb (fun r => has_key r props) req = true /\ keys_sorted (map fst props) = true /\
+      Sanitize.unique (field_idents cls (rest_of t props)) = true /\
+      forallb (fun kv => mem_ustr (fst kv) req || negb (is_one (snd kv))) (rest_of t props) = true /\
+      ((props = [(t, xsimple_sch [JStr x])] /\ conv_ivariant cls cvf nm t b s0 = Some (x, VSimple, s0)) \/
+       ((forall k1 s1, props <> [(k1, s1)]) /\
+        conv_ivariant cls cvf nm t b s0 =
+        match conv_props cls cvf base req (rest_of t props) s0 with
+        | Some (ps, s1) => if Sanitize.unique (map p_name (sort_props ps)) then Some (x, VStruct (sort_props ps), s1) else None
+        | None => None
+        end)).
+  Proof.
+    intros Hb Hc. destruct (int_branch_cases cls t b Hc) as (props & req & closed & x & -> & Ha & Hreq & Hhas & Hks & Hun & Hopt).
+    exists props, req, closed, x. repeat (split; [assumption || reflexivity|]).
+    destruct props as [|[k1 s1] [|kv2 rest]].
+    - discriminate Ha.
+    - left. cbn [assoc] in Ha. destruct (ustr_eqb t k1) eqn:E; [|discriminate]. apply ustr_eqb_eq in E. subst k1.
+      injection Ha as ->. split; [reflexivity|]. reflexivity.
+    - right. split; [intros k1' s1' H; discriminate H|].
+      cbn [conv_ivariant tbranch]. rewrite Ha. cbn [cstr xsimple_sch]. rewrite Hb, conv_props_skip_filter. reflexivity.
+  Qed.
+
+  Lemma rest_sub t props P : Forall P props -> Forall P (rest_of t props).
+  Proof.
+    intro H. apply Forall_forall. intros x Hx. apply filter_In in Hx. rewrite Forall_forall in H. exact (H x (proj1 Hx)).
+  Qed.
+
+  Lemma conv_ibranches_total nm t : name_opt nm <> None -> forall bs,
+    Forall (PropP Tot) bs -> forallb (int_cond cls t) bs = true -> one_frags (TagInternal t) bs = true ->
+    forall s0, conv_ibranches cls cvf nm t bs s0 <> None.
+  Proof.
+    intros Hnm. destruct (name_opt nm) as [base|] eqn:Hb; [|congruence].
+    induction bs as [|b r IH]; intros HT Hc Hf s0; [discriminate|].
+    cbn [forallb] in Hc. apply andb_true_iff in Hc. destruct Hc as [Hc1 Hc2].
+    rewrite one_frags_cons in Hf. apply andb_true_iff in Hf. destruct Hf as [Hf1 Hf2].
+    cbn [conv_ibranches].
+    destruct (conv_ivariant_cases nm base t b s0 Hb Hc1)
+      as (props & req & closed & x & -> & Ha & Hreq & Hhas & Hks & Hun & Hopt & [[-> Hv]|[Hnl Hv]]); rewrite Hv.
+    - destruct (conv_ibranches cls cvf nm t r s0) as [[vs2 s2]|] eqn:Hr; [discriminate|].
+      exfalso. exact (IH (Forall_inv_tail HT) Hc2 Hf2 s0 Hr).
+    - cbn [branch_fold tbranch name_opt] in Hf1. rewrite (ifold_frag t props) in Hf1.
+      assert (HTp : Forall (fun kv => Tot (snd kv)) props).
+      { apply Forall_forall. intros [k sc] Hin. exact (Forall_inv HT k sc Hin). }
+      destruct (conv_props cls cvf base req (rest_of t props) s0) as [[ps sa]|] eqn:Hcp;
+        [|exfalso; exact (conv_props_total base req (rest_of t props) (rest_sub t props _ HTp) Hf1 s0 Hcp)].
+      assert (Hu : Sanitize.unique (map p_name (sort_props ps)) = true).
+      { apply unique_true_iff. apply unique_true_iff in Hun.
+        eapply Permutation_NoDup; [apply Permutation_sym, Permutation_map, sort_props_perm|].
+        rewrite (conv_props_names _ _ _ _ _ _ _ Hcp). exact Hun. }
+      rewrite Hu.
+      destruct (conv_ibranches cls cvf nm t r sa) as [[vs2 s2]|] eqn:Hr; [discriminate|].
+      exfalso. exact (IH (Forall_inv_tail HT) Hc2 Hf2 sa Hr).
+  Qed.
+
+  Lemma conv_ibranches_names nm t : name_opt nm <> None -> forall bs names s rvs s1,
+    forallb (int_cond cls t) bs = true ->
+    variant_names (TagInternal t) bs = Some names -> conv_ibranches cls cvf nm t bs s = Some (rvs, s1) ->
+    map fst rvs = names.
+  Proof.
+    intros Hnm. destruct (name_opt nm) as [base|] eqn:Hb; [|congruence].
+    induction bs as [|b r IH]; intros names s rvs s1 Hc Hn Hcv.
+    - cbn in Hn, Hcv. injection Hn as <-. injection Hcv as <- _. reflexivity.
+    - cbn [forallb] in Hc. apply andb_true_iff in Hc. destruct Hc as [Hc1 Hc2].
+      cbn [variant_names opt_all_map] in Hn. cbn [conv_ibranches] in Hcv.
+      destruct (conv_ivariant_cases nm base t b s Hb Hc1)
+        as (props & req & closed & x & -> & Ha & _ & _ & _ & _ & _ & Hcase).
+      cbn [sch_props tbranch] in Hn. rewrite Ha in Hn. cbn [cstr xsimple_sch] in Hn.
+      change (opt_all_map (fun b0 => match assoc t (sch_props b0) with Some ts => cstr ts | None => None end) r)
+        with (variant_names (TagInternal t) r) in Hn.
+      destruct (variant_names (TagInternal t) r) as [rest|] eqn:Hrest; [|discriminate]. injection Hn as <-.
+      assert (Hgen : forall vd sa, match conv_ibranches cls cvf nm t r sa with
+                                   | Some (vs2, s2) => Some ((x, vd) :: vs2, s2)
+                                   | None => None end = Some (rvs, s1) -> map fst rvs = x :: rest).
+      { intros vd sa H. destruct (conv_ibranches cls cvf nm t r sa) as [[vs2 s2]|] eqn:Hr; [|discriminate].
+        injection H as <- _. cbn [map fst]. f_equal. exact (IH rest sa vs2 s2 Hc2 eq_refl Hr). }
+      destruct Hcase as [[_ Hv]|[_ Hv]]; rewrite Hv in Hcv.
+      + exact (Hgen _ _ Hcv).
+      + destruct (conv_props cls cvf base req (rest_of t props) s) as [[ps sa]|]; [|discriminate].
+        destruct (Sanitize.unique _); [|discriminate]. exact (Hgen _ _ Hcv).
+  Qed.
+
   Lemma conv_kind_total items props req ap oneo k nm s0 :
     frag_kind k items props req ap oneo = true ->
     Forall Tot items -> Forall (fun kv => Tot (snd kv)) props -> OForall Tot ap ->
-    OForall (Forall (PayP Tot)) oneo ->
+    OForall (Forall (PropP Tot)) oneo ->
     (match k with
      | KVec _ => exists it, items = [it]
-     | KOne tg => tg = TagExternal
      | _ => True end) ->
     name_opt nm <> None ->
     conv_kind cls (ref_id D) cvf k nm items props req ap oneo s0 <> None.
@@ -1328,15 +1631,33 @@ Section Main.
     destruct (type_name_some nm Hnm) as (n & Hn).
     destruct k as [| | | |mx mn pat|r|raws|deny| | |c|c|r| |tg]; cbn [conv_kind]; try discriminate.
     9: { (* KOne *)
-      subst tg. rewrite Hn. cbn [frag_kind] in Hfk. destruct oneo as [bs|]; [|discriminate].
-      apply andb_true_iff in Hfk. destruct Hfk as [Hfk _].
-      apply andb_true_iff in Hfk. destruct Hfk as [Hfk Hfr]. apply andb_true_iff in Hfk. destruct Hfk as [Hid _].
-      cbn [variant_names] in Hid.
-      destruct (xall_names bs) as [names|] eqn:Hnames; [|discriminate].
-      destruct (conv_xbranches cvf nm bs s0) as [[[rvs deny] s1]|] eqn:Hc;
-        [|exfalso; exact (conv_xbranches_total nm Hnm bs names HTo Hnames Hfr s0 Hc)].
-      unfold mk_tagged. rewrite (conv_xbranches_names cvf nm bs names s0 rvs deny s1 Hnames Hc).
-      destruct (Sanitize.variant_idents cls names); try discriminate Hid. discriminate. }
+      cbn [frag_kind] in Hfk. destruct oneo as [bs|]; [|discriminate]. cbn [OForall] in HTo.
+      apply andb_true_iff in Hfk. destruct Hfk as [Hfk Hpt].
+      apply andb_true_iff in Hfk. destruct Hfk as [Hfk Hfr]. apply andb_true_iff in Hfk. destruct Hfk as [Hid Hbok].
+      destruct (variant_names tg bs) as [names|] eqn:Hnames; [|discriminate].
+      destruct tg as [|t|t c|]; [| | |discriminate Hpt]; rewrite Hn.
+      - (* external *)
+        cbn [variant_names] in Hnames.
+        assert (HTo' : Forall (PayP Tot) bs) by (eapply Forall_impl; [|exact HTo]; intros a Ha; exact (PropP_PayP _ a Ha)).
+        destruct (conv_xbranches cvf nm bs s0) as [[[rvs deny] s1]|] eqn:Hc;
+          [|exfalso; exact (conv_xbranches_total nm Hnm bs names HTo' Hnames Hfr s0 Hc)].
+        unfold mk_tagged. rewrite (conv_xbranches_names cvf nm bs names s0 rvs deny s1 Hnames Hc).
+        destruct (Sanitize.variant_idents cls names); try discriminate Hid. discriminate.
+      - (* internal *)
+        cbn [branches_ok] in Hbok. apply andb_true_iff in Hbok. destruct Hbok as [Hbok _].
+        change (forallb (int_cond cls t) bs = true) in Hbok.
+        destruct (conv_ibranches cls cvf nm t bs s0) as [[rvs s1]|] eqn:Hc;
+          [|exfalso; exact (conv_ibranches_total nm t Hnm bs HTo Hbok Hfr s0 Hc)].
+        unfold mk_tagged. rewrite (conv_ibranches_names nm t Hnm bs names s0 rvs s1 Hbok Hnames Hc).
+        destruct (Sanitize.variant_idents cls names); try discriminate Hid. discriminate.
+      - (* adjacent *)
+        cbn [branches_ok] in Hbok. apply andb_true_iff in Hbok. destruct Hbok as [Hbok _].
+        apply andb_true_iff in Hbok. destruct Hbok as [Hbok Htc]. apply negb_true_iff in Htc.
+        change (forallb (adj_cond t c) bs = true) in Hbok.
+        destruct (conv_abranches cvf nm t c bs s0) as [[[rvs deny] s1]|] eqn:Hc;
+          [|exfalso; exact (conv_abranches_total nm t c Hnm Htc bs HTo Hbok Hfr s0 Hc)].
+        unfold mk_tagged. rewrite (conv_abranches_names nm t c Htc bs names s0 rvs deny s1 Hbok Hnames Hc).
+        destruct (Sanitize.variant_idents cls names); try discriminate Hid. discriminate. }
     - (* KStrC *)
       destruct (assign DString _). rewrite Hn. discriminate.
     - (* KEnum *)
@@ -1385,7 +1706,7 @@ Section Main.
 
   Lemma conv_total : forall s, Tot s.
   Proof.
-    apply schema_ind_x.
+    apply schema_ind_p.
     - intros b Hf. discriminate Hf.
     - intros ty fmt enum cst nv sv ik items ai mni mxi uq props req ap mnp mxp allo anyo oneo no ref dflt title
              IHitems IHprops IHap IHone.
@@ -1395,16 +1716,11 @@ Section Main.
       pose proof Hcl as Hcases. apply classify_cases in Hcases.
       cbn [frag] in Hf. rewrite Hcl in Hf. change (frag_kind k items props req ap oneo = true) in Hf.
       cbn [conv]. rewrite Hcl.
-      assert (Hshape : match k with KVec _ => exists it, items = [it] | KOne tg => tg = TagExternal | _ => True end).
+      assert (Hshape : match k with KVec _ => exists it, items = [it] | _ => True end).
       { destruct k; try exact I.
-        - destruct Hcases as [(l & tt & _ & _ & _ & Hk)|(_ & _ & _ & _ & _ & _ & _ & _ & _ & _ & _ & _ & _ & [(r & _ & Hk)|[(_ & Hk)|(bs & tg & _ & _ & Hk & _)]])];
-            try discriminate Hk.
-          apply kind_of_type_inv in Hk. destruct Hk as (_ & _ & _ & _ & _ & _ & _ & Hi). exact (proj2 (proj2 Hi)).
-        - destruct Hcases as [(l & tt & _ & _ & _ & Hk)|(_ & _ & _ & _ & _ & _ & _ & _ & _ & _ & _ & _ & _ & [(r & _ & Hk)|[(_ & Hk)|(bs & tg' & _ & _ & Hk & Hok)]])];
-            try discriminate Hk.
-          + apply kind_of_type_inv in Hk. destruct Hk as (_ & _ & _ & _ & _ & _ & _ & []).
-          + clear - Hf. cbn [frag_kind] in Hf. destruct oneo; [|discriminate].
-            apply andb_true_iff in Hf. destruct Hf as [_ Hp]. destruct tg; try discriminate Hp. reflexivity. }
+        destruct Hcases as [(l & tt & _ & _ & _ & Hk)|(_ & _ & _ & _ & _ & _ & _ & _ & _ & _ & _ & _ & _ & [(r & _ & Hk)|[(_ & Hk)|(bs & tg & _ & _ & Hk & _)]])];
+          try discriminate Hk.
+        apply kind_of_type_inv in Hk. destruct Hk as (_ & _ & _ & _ & _ & _ & _ & Hi). exact (proj2 (proj2 Hi)). }
       assert (Hin : name_opt (inner_name nm) <> None).
       { destruct nm; cbn [inner_name name_opt]; try discriminate. exact Hnm. }
       destruct nl; cbn [conv_node].
